@@ -108,16 +108,6 @@ theorem getDialAddr_url {h : Host} {p : Option Str} (d : Str) (wh : h.wf = true)
   have := gda_form d wh wp
   simpa [getDialAddr] using this
 
-/-- ★ with a `dial_addr` host: that host and port (or the default port), whatever the URL says -/
-theorem getDialAddr_override {h : Host} {p : Option Str} (url d : Str) (wh : h.wf = true)
-    (wp : portWf p = true) :
-    getDialAddr url (Dial.render (.host h p)) d = joinHostPort h.bare (p.getD d) := by
-  have ne := render_ne_nil (p := p) wh
-  have l : (Dial.render (.host h p)).length > 0 := List.length_pos_iff.mpr ne
-  have := gda_form d wh wp
-  simp only [getDialAddr, l, if_true, render_no_at wh, Bool.false_eq_true, if_false]
-  simpa using this
-
 /-- ★ `@name`: unchanged -/
 theorem getDialAddr_unix (url n d : Str) : getDialAddr url ('@' :: n) d = '@' :: n := by
   simp [getDialAddr, hasAtPrefix]
@@ -162,6 +152,60 @@ theorem trim_never_panics (s : Str) : (tryTrimIpv6Brackets? s).isSome = true := 
       have : 1 ≤ s.length - 1 ∧ s.length - 1 ≤ s.length := by omega
       simp [slice?, this]
     · rfl
+
+/-- trimming leaves the bare text of a supported host alone -/
+theorem trim_bare {h : Host} (wh : h.wf = true) : tryTrimIpv6Brackets h.bare = h.bare := by
+  have nb : '[' ∉ h.bare := by
+    cases h with
+    | plain h => exact (Host.wf_plain wh).lb
+    | v6 x => exact (Host.wf_v6 wh).lb
+  have : ¬ ∃ x, h.bare = '[' :: x ++ [']'] := by
+    rintro ⟨x, e⟩
+    rw [e] at nb
+    simp at nb
+  simp [tryTrimIpv6Brackets, trim_other _ this]
+
+theorem trim_total_bracketed (x : Str) : tryTrimIpv6Brackets ('[' :: x ++ [']']) = x := by
+  simp only [tryTrimIpv6Brackets, trim_bracketed]
+
+/-- ★ with a `dial_addr` host: that host and port (or the default port), whatever the URL says -/
+theorem getDialAddr_override {h : Host} {p : Option Str} (url d : Str) (wh : h.wf = true)
+    (wp : portWf p = true) :
+    getDialAddr url (Dial.render (.host h p)) d = joinHostPort h.bare (p.getD d) := by
+  have ne := render_ne_nil (p := p) wh
+  have l : (Dial.render (.host h p)).length > 0 := List.length_pos_iff.mpr ne
+  simp only [getDialAddr, l, if_true, render_no_at wh, Bool.false_eq_true, if_false]
+  rw [trySplit_render wh wp]
+  cases p with
+  | none => simp [trim_bare wh]
+  | some p =>
+    have := (portWf_some wp).ne
+    simp [this, render_some_eq_join wh]
+
+/-- ★ with a `dial_addr` that is an IPv6 address in brackets without port: that address and the
+    default port -/
+theorem getDialAddr_bracketed {x : Str} (url d : Str) (hx : isV6Body x = true) :
+    getDialAddr url ('[' :: x ++ [']']) d = joinHostPort x d := by
+  have f := v6_facts hx
+  have hl : lastIndexOf ':' ('[' :: x ++ [']']) ≠ none := by
+    obtain ⟨a, b, e, nb⟩ := exists_last_split f.colon
+    have e2 : '[' :: x ++ [']'] = ('[' :: a) ++ ':' :: (b ++ [']']) := by simp [e]
+    rw [e2, lastIndexOf_append]
+    · simp
+    · simp [nb]
+  have hi : indexOf ']' ('[' :: x ++ [']']) = some (x.length + 1) := by
+    have := indexOf_append (c := ']') (a := '[' :: x) [] (by simp [f.rb])
+    simpa using this
+  have hs : splitHostPort ('[' :: x ++ [']']) = .error .missingPort := by
+    unfold splitHostPort
+    cases h : lastIndexOf ':' ('[' :: x ++ [']']) with
+    | none => exact absurd h hl
+    | some i =>
+      simp only [List.cons_append] at hi
+      simp [hi]
+  have ht := trim_total_bracketed x
+  simp only [List.cons_append] at hs ht
+  simp [getDialAddr, hasAtPrefix, trySplitHostPort, hs, ht]
 
 /-- the URL authority after trimming is one of the forms `trySplit_render` understands -/
 theorem trim_authority {h : Host} {p : Option Str} (wh : h.wf = true) (wp : portWf p = true) :
